@@ -302,8 +302,8 @@ CHECKS["C03"]["rule"] = (
 
 CHECKS["C04"] = dict(
     src="harness/C04_costs.cpp",
-    cases=dict(quick=2000, thorough=60000),
-    rule="Case = (53%) part A: optimizing planner (22 registry entries) x problem (normal scenarios of C01; two fifths with a large goal region, threshold 1.0..2.8) x objective {path length, state-cost "
+    cases=dict(quick=1500, thorough=40000),
+    rule="Case = (53%) part A: optimizing planner (22 registry entries) x problem (normal scenarios of C01; two fifths with a large goal region, threshold 1.0..2.8; a quarter with some declared planner switches flipped) x objective {path length, state-cost "
          "integral over a generated smooth field, mechanical work, max-min clearance, weighted length+integral} x cost threshold {never satisfied, "
          "always satisfied, generated finite} x 1..4 continued solves with evaluation budgets 50..3000 (a quarter of the continued solves preceded by pdef->clearSolutionPaths(); 55% of the cases "
          "end with: long solve, clearSolutionPaths, short solve - what the planner reports afterwards must not be worse than before): every entry of getSolutions() is re-costed "
